@@ -36,6 +36,9 @@ func init() {
 	core.Register(&core.Engine{Name: "flags", Run: runFlags})
 }
 
+// functions not called in the unrestricted warm-up (they act without arguments)
+var flagsNoWarmup = map[string]bool{"_G.os.exit": true, "_G.io.tmpfile": true, "_G.os.tmpname": true, "_G.package.loaded.os.exit": true, "_G.package.loaded.io.tmpfile": true, "_G.package.loaded.os.tmpname": true, "_G.collectgarbage": true, "_G.runtime.killcontext": true, "_G.package.loaded.runtime.killcontext": true, "_G.coroutine.yield": true, "_G.package.loaded.coroutine.yield": true}
+
 type goFn struct {
 	path string
 	v    rt.Value
@@ -304,6 +307,24 @@ func runFlags(ctx *core.RunCtx) {
 		})
 		return
 	}
+	// A first call where nothing is required (no arguments, so that functions with outside effects fail
+	// on their argument checks): gating must not depend on what happened before.
+	if !flagsNoWarmup[fn.path] {
+		if _, _, _, pan := call(0, 0, nil); pan != nil {
+			if _, ok := pan.(rt.ContextTerminationError); !ok {
+				ctx.Fail("C08", "C08.P", "panic", "%s() panicked: %v", fn.path, pan)
+				return
+			}
+		}
+		if sen.changed() != "" {
+			sen.restore()
+			os.MkdirAll(sen.dir, 0o755)
+			os.WriteFile(filepath.Join(sen.dir, "secret.txt"), []byte(sen.secret+"\nline2\n"), 0o644)
+			os.Mkdir(filepath.Join(sen.dir, "sub"), 0o755)
+			os.WriteFile(filepath.Join(sen.dir, "script.lua"), []byte("return 1\n"), 0o644)
+			sen.snap = sen.snapshot()
+		}
+	}
 	// D(f): probe with each single flag and no arguments
 	declared := 0
 	for b := 0; b < 4; b++ {
@@ -382,4 +403,38 @@ func runFlags(ctx *core.RunCtx) {
 		}
 	}
 	ctx.Count("grid cells (function x flag subset x 2 argument tuples)", int64(grid))
+	// many refusals in a row on one thread must leave the context able to run compliant functions
+	if declared != 15 && g.Chance(1, 4) {
+		missing := 15 &^ declared
+		var errS string
+		var live bool
+		n := 1200 + g.Choose(400)
+		func() {
+			defer func() { recover() }()
+			th.CallContext(rt.RuntimeContextDef{RequiredFlags: flagSet(missing)}, func() error {
+				for i := 0; i < n; i++ {
+					if err := rt.Call(th, fn.v, nil, rt.NewTerminationWith(nil, 0, true)); err != nil {
+						errS = err.Error()
+					} else {
+						errS = "no error"
+					}
+					if !strings.Contains(errS, "missing flags") {
+						break
+					}
+				}
+				t2 := rt.NewTerminationWith(nil, 1, false)
+				live = rt.Call(th, typeFn, []rt.Value{rt.IntValue(1)}, t2) == nil
+				return nil
+			})
+		}()
+		ctx.Count("fault.refusal storm (1200+ refusals on one thread)", 1)
+		if !strings.Contains(errS, "missing flags") {
+			ctx.Fail("C08", "C08.G1", "refusal-changes-after-many-calls", "after many refused calls of %s the refusal became %q", fn.path, errS)
+			return
+		}
+		if !live {
+			ctx.Fail("C08", "C08.G1", "context-not-live-after-refusal", "after %d refused calls of %s the context could not run a compliant function", n, fn.path)
+			return
+		}
+	}
 }
